@@ -31,7 +31,9 @@ WORKLOADS = ["producer_plain", "producer_idempotent", "producer_txn", "consumer_
              # a group-less consumer that subscribes by topic: its assignment is replaced when the topic grows
              "consumer_groupless_subscribe",
              # the application reads record by record (async-for style): its getone() is parked while stop() runs
-             "consumer_groupless_getone"]
+             "consumer_groupless_getone",
+             # the application widens its subscription while the consumer is running (new topic to track, rebalance)
+             "consumer_group_resubscribe"]
 STATES = ["healthy", "node_refusing", "node_blackholed", "coordinator_refusing", "coordinator_blackholed", "failover",
           "commits_refused", "fenced",
           # the host accepts connections but never answers: stop() lands inside connection handshakes
@@ -64,6 +66,9 @@ async def _scenario(workload, state, stop_at, obs, loop, net):
     c = Cluster(loop, net, n_nodes=2)
     obs["cluster"] = c
     c.add_topic("t0", 2, leaders=[0, 1])
+    if workload == "consumer_group_resubscribe":
+        c.add_topic("t1", 1, leaders=[0])
+        c.add_topic("t2", 1, leaders=[0])
     c.txn_coord_node = 1
     c.group_coord_node = 1
     for p in range(2):
@@ -136,6 +141,8 @@ async def _scenario(workload, state, stop_at, obs, loop, net):
         app_tasks.append(asyncio.ensure_future(app()))
     else:
         kw = dict(common, auto_offset_reset="earliest", fetch_max_wait_ms=50)
+        if workload == "consumer_group_resubscribe":
+            kw["metadata_max_age_ms"] = 60000       # no periodic refresh comes to the rescue of a forgotten one
         if workload.startswith("consumer_group") and not workload.startswith("consumer_groupless"):
             kw.update(group_id="g", session_timeout_ms=CFG["session_timeout_ms"], heartbeat_interval_ms=CFG["heartbeat_interval_ms"],
                       rebalance_timeout_ms=CFG["rebalance_timeout_ms"], auto_commit_interval_ms=100)
@@ -160,6 +167,16 @@ async def _scenario(workload, state, stop_at, obs, loop, net):
             except (KafkaError, ConsumerStoppedError, asyncio.CancelledError, Exception):
                 return
         app_tasks.append(asyncio.ensure_future(app()))
+        if workload == "consumer_group_resubscribe":
+            async def resubscribe():
+                await asyncio.sleep(0.36)
+                try:
+                    client.subscribe(["t0", "t1"])
+                    await asyncio.sleep(0.002)       # the metadata refresh forced by the first change is in flight
+                    client.subscribe(["t0", "t1", "t2"])
+                except Exception:
+                    pass
+            app_tasks.append(asyncio.ensure_future(resubscribe()))
         if workload.startswith("consumer_group") and not workload.startswith("consumer_groupless"):
             async def second():
                 CLIENT_TAG.set("other")
@@ -222,6 +239,22 @@ async def _scenario(workload, state, stop_at, obs, loop, net):
     obs["members_at_return"] = sorted(m.client_id for m in g.members.values()) if g else []
     coord = c.nodes[c.group_coord_node]
     obs["coordinator_reachable"] = coord.up and state not in ("coordinator_refusing", "coordinator_blackholed", "failover")
+    # LeaveGroup is a single best-effort request: a client that has just written its coordinator off (a group request
+    # timed out or lost its connection) does not look it up again for it
+    t_stop = (obs.get("stop_call") or {}).get("t", 0.0)
+    lost = [a.api for a in c.arrivals if a.client_id == "main" and a.api in ("join", "sync", "heartbeat", "offset_commit", "leave")
+            and a.t_end is not None and not a.delivered and a.t_end >= t_stop - 1.5]
+    # the final commit of stop() answered ILLEGAL_GENERATION / UNKNOWN_MEMBER_ID (the group moved on while the member
+    # was stopping): the client forgets its member id before it gets to LeaveGroup - see known_findings.json
+    obs["final_commit_refused"] = any(
+        a.client_id == "main" and a.api == "offset_commit" and a.t >= t_stop - 1e-9 and a.reply and
+        any(p.get("error") in (22, 25) for t in a.reply.get("topics", []) for p in t.get("partitions", []))
+        for a in c.arrivals)
+    if lost:
+        # (with every broker up this only happens when a JoinGroup outlives request_timeout_ms, which this harness sets
+        # below the rebalance timeout to keep stop() bounds short - see DESIGN.md 8.6 on that precondition)
+        obs["coordinator_reachable"] = False
+        obs["coordinator_written_off"] = lost[:4]
     if pend:
         return
     # ---- closed API
@@ -387,8 +420,10 @@ def execute(case):
                 out.fail("closed_api", "%s:%s:%s" % (site, name, res), dict(det, result=res, want=want))
         if obs.get("app_calls_blocked"):
             out.fail("closed_api", site + ":call_in_progress_never_returned", dict(det, blocked=obs["app_calls_blocked"], where=obs.get("app_blocked_chain")))
-        if w in ("consumer_group", "consumer_group_unsub") and obs.get("coordinator_reachable") and "main" in obs.get("members_at_return", []):
-            out.fail("left_group", site + ":still_a_member", dict(det, members=obs["members_at_return"]))
+        if w in ("consumer_group", "consumer_group_unsub", "consumer_group_resubscribe") and obs.get("coordinator_reachable") \
+                and "main" in obs.get("members_at_return", []):
+            out.fail("left_group", site + ":still_a_member", dict(det, members=obs["members_at_return"]),
+                     generation_reset_by_refused_final_commit=bool(obs.get("final_commit_refused")))
     out.nontrivial = bool(sc.get("inflight") or sc.get("nodes_down") or sc.get("group_state") in ("PreparingRebalance", "CompletingRebalance"))
     out.label("w_" + w, "s_" + s)
     if sc.get("inflight"):
@@ -397,6 +432,8 @@ def execute(case):
         out.label("rebalance_in_progress_at_stop")
     if sc.get("nodes_down"):
         out.label("broker_unreachable_at_stop")
+    if obs.get("coordinator_written_off"):
+        out.label("coordinator_written_off_and_lookup_may_fail")
     out.info = {"stop_took": round(obs.get("stop_return", 0) - sc.get("t", 0), 4) if "stop_return" in obs else None,
                 "closed_api": obs.get("closed_api")}
     return out
@@ -421,11 +458,11 @@ def cases(shard, nshards, stride):
                      "consumer_groupless_getone") \
                     and s.startswith("coordinator"):
                 continue          # no coordinator involved
-            if s == "commits_refused" and w not in ("consumer_group", "consumer_group_unsub"):
+            if s == "commits_refused" and w not in ("consumer_group", "consumer_group_unsub", "consumer_group_resubscribe"):
                 continue
             if s == "fenced" and w != "producer_txn":
                 continue
-            if s == "group_unauthorized" and w not in ("consumer_group", "consumer_group_unsub"):
+            if s == "group_unauthorized" and w not in ("consumer_group", "consumer_group_unsub", "consumer_group_resubscribe"):
                 continue
             if i % nshards != shard and stride is None:
                 pass
